@@ -103,6 +103,7 @@ conjure-http = { path = "/repo/conjure-http" }
 conjure-serde = { path = "/repo/conjure-serde" }
 serde = "1"
 serde_json = "1"
+serde-smile = "0.2"
 vcommon = { path = "%s/engines/vcommon" }
 
 [profile.dev]
